@@ -8,6 +8,7 @@
 #define SPECTRA_SYM_GEIGS_BUCKLING_OP_H
 
 #include <Eigen/Core>
+#include <stdexcept>
 
 #include "../SymShiftInvert.h"
 #include "../SparseSymMatProd.h"
@@ -47,7 +48,10 @@ public:
     ///
     SymGEigsBucklingOp(OpType& op, const BOpType& Bop) :
         m_op(op), m_Bop(Bop), m_cache(op.rows())
-    {}
+    {
+        if (op.rows() != Bop.rows())
+            throw std::invalid_argument("SymGEigsBucklingOp: the A and B matrix operations must have the same size");
+    }
 
     ///
     /// Move constructor.
